@@ -152,22 +152,29 @@ func refServe(header string, input []byte, ns, ownBare string) (want []bexp, end
 			if !e.complete {
 				return want, "error", ""
 			}
-			if replyCannotBeAddressed(t) {
+			switch replyCannotBeAddressed(t) {
+			case "yes":
 				// the recorder never answers: the library owes a get/set IQ a default
 				// reply, which it cannot address when the from attribute is not an
 				// address; Serve then ends with that error (reply accounting is C07's
 				// subject): the framing up to here is all that is asserted
 				return want, "replyfail", ""
+			case "either":
+				// duplicate from attributes (not well-formed, but not rejected by the
+				// decoder) of which only some are addresses: which of them the reply is
+				// addressed to is not specified, so the stream may end here or go on;
+				// the framing up to here is asserted, nothing about what follows
+				return want, "replyeither", ""
 			}
 		}
 	}
 }
 
-func replyCannotBeAddressed(t xml.StartElement) bool {
+func replyCannotBeAddressed(t xml.StartElement) string {
 	if t.Name.Local != "iq" || (t.Name.Space != stanza.NSClient && t.Name.Space != stanza.NSServer) {
-		return false
+		return "no"
 	}
-	needs, badFrom := false, false
+	needs, badFrom, goodFrom := false, false, false
 	// (only unqualified attributes are the stanza's own; with duplicates any of
 	// them may be the one looked at)
 	for _, a := range t.Attr {
@@ -180,14 +187,20 @@ func replyCannotBeAddressed(t xml.StartElement) bool {
 				needs = true
 			}
 		case "from":
-			if a.Value != "" {
-				if _, err := jid.Parse(a.Value); err != nil {
-					badFrom = true
-				}
+			if _, err := jid.Parse(a.Value); a.Value != "" && err != nil {
+				badFrom = true
+			} else {
+				goodFrom = true
 			}
 		}
 	}
-	return needs && badFrom
+	switch {
+	case needs && badFrom && goodFrom:
+		return "either"
+	case needs && badFrom:
+		return "yes"
+	}
+	return "no"
 }
 
 func startNoFrom(s xml.StartElement) string {
@@ -249,6 +262,9 @@ func checkBytes(t interface {
 	var serveErr error
 	if p := ev.Guard(func() { serveErr = s.Serve(rec) }); p != "" {
 		fail("Serve panicked: %s", p)
+	}
+	if end == "replyeither" && len(rec.inv) > len(want) {
+		rec.inv = rec.inv[:len(want)]
 	}
 	if len(rec.inv) != len(want) {
 		var names []string
@@ -343,6 +359,7 @@ var snippets = []string{
 	`<iq xmlns:x="urn:verif:x" x:from="test@example.net" from="test@example.net" type="get" id="q"><p xmlns="urn:verif:x"/></iq>`,
 	`<message from="test@example.net" xmlns:x="urn:verif:x" x:from="test@example.net"/>`,
 	`<presence from="other@example.com" from="test@example.net"/>`,
+	`<iq type="get" id="dup" from="other@example.com" from="me@"/>`, `<iq type="set" id="dup" from="@" from="other@example.com"/>`,
 	`<message xml:lang="en" from='test@example.net'>t</message>`,
 	` `, "\n", "\r\n", "\t", `<`, `>`, `/>`, `</`, `"`, `<a>`, `</a>`, `<a/>`, "\x00", "\xff", "\u2028",
 	`<stream:stream xmlns:stream="http://etherx.jabber.org/streams" version="1.0">`,
